@@ -56,6 +56,13 @@ def gen_system(rng, cat, n, thorough):
         if rng.random() < 0.5:
             A += box[:n]
             b += [FR(20)] * n
+    elif cat == "tiny-row":
+        # a necessary constraint written with tiny coefficients: its raw slack is far below 1e-8 although it cuts the box in half
+        k = rng.randrange(n)
+        s_ = rng.choice([FR(1, 10**9), FR(1, 2**33), FR(1, 10**11)])
+        A, b = list(box), [FR(2)] * (2 * n)
+        A.append([s_ if j == k else FR(0) for j in range(n)])
+        b.append(s_ * rng.choice([FR(1), FR(0), FR(-1)]))
     elif cat == "free-direction":
         # constraints that leave at least one coordinate completely free
         k = rng.randrange(n)
@@ -68,7 +75,7 @@ def gen_system(rng, cat, n, thorough):
 
 
 CATS = ["bounded", "bounded", "empty-margin", "empty-hair", "point", "lowerdim", "unbounded", "redundant", "zero-rows", "parallel",
-        "free-direction", "mixed-scale", "random"]
+        "free-direction", "mixed-scale", "tiny-row", "random"]
 
 
 def make_cases(chk):
